@@ -11,8 +11,8 @@ A disagreement impl != spec is attributed to a known finding only if (a) the Lea
 behaviour exactly (impl == model) and (b) the finding's match rule — a predicate on the case structure, implemented here
 in Python and, independently, in Lean (WfState/Class.lean; the two are compared on every case) — holds.  A disagreement
 on a workflow inside the class (`inClass`: no shared origins, no later-upstream-through-two-fields, no combiner that
-removes all inherited axes of a node with an own splitter, no partially combined zip feeding another node) is always a
-VIOLATION.
+removes all inherited axes of a node with an own splitter, no partially combined zip feeding another node, no node name that
+is a substring of a foreign combiner key) is always a VIOLATION.
 """
 
 from __future__ import annotations
@@ -74,6 +74,7 @@ OBLIGATIONS = [
         "C03_witness_partial_zip",
         "C03_witness_comb_all_prev",
         "C03_witness_later_multi",
+        "C03_witness_name_clash",
         "C03_full_statement_false",
         "C03_no_shared_origin_not_enough",
     )
@@ -159,9 +160,11 @@ def flags(case) -> dict:
         "laterMulti": any(any(len(fl) >= 2 for _, fl in i["ups"][1:]) for i in infos.values()),
         "combAllPrev": any(i["own"] and i["upAxes"] and all(a in i["comb"] for a in i["upAxes"]) for i in infos.values()),
         "partialZipFeeds": any(partial_zip(nd) and nd["name"] in consumers for nd in case["nodes"]),
+        # State.current_combiner tests `self.name in comb` (substring): a key of another node that contains this node's name
+        "nameClash": any(nd["name"] in c and not c.startswith(nd["name"] + ".") for nd in case["nodes"] for c in nd.get("combine") or []),
     }
     fl = {k: bool(v) for k, v in fl.items()}
-    fl["inClass"] = not (fl["shared"] or fl["laterMulti"] or fl["combAllPrev"] or fl["partialZipFeeds"])
+    fl["inClass"] = not (fl["shared"] or fl["laterMulti"] or fl["combAllPrev"] or fl["partialZipFeeds"] or fl["nameClash"])
     return fl
 
 
@@ -185,31 +188,34 @@ def attribute(fl: dict, kind: str) -> str | None:
     if fl["inClass"] or kind == "ok":
         return None
     errors = ("AttributeError", "PydraStateError", "TypeError", "KeyError", "IndexError", "ValueError", "AssertionError")
+    if fl["nameClash"]:
+        # the combiner key of an inherited axis is treated as the node's own: the axis is not combined in the prev-state part
+        return "D39"
     if fl["partialZipFeeds"] and kind in ("AttributeError", "PydraStateError", "TypeError"):
         # depth() says "no state", splitter_rpn_final says "state": no setter / missing attribute, or — when the
         # re-applied update_connections adds the upstream to an existing list — the nested-list TypeError
         return "D29"
     if fl["combAllPrev"] and kind == "ValueError":
-        return "D33"
+        return "D37"
     if fl["shared"]:
         if kind == "TypeError":
             return "D30"
         if kind == "ValueError" and fl["dropsRoot"] and not fl["sharedComb"]:
             return "D31"  # two own-splitter descendants of one connected root: the root is removed twice (list.remove)
         if kind in errors:
-            return "D35" if fl["sharedComb"] else ("D31" if fl["dropsRoot"] else "D30")
+            return "D36" if fl["sharedComb"] else ("D31" if fl["dropsRoot"] else "D30")
         if kind == "morejobs":
             return "D2"
         if kind == "wrongvals":
-            return "D31" if fl["dropsRoot"] else ("D35" if fl["sharedComb"] else "D2")
+            return "D31" if fl["dropsRoot"] else ("D36" if fl["sharedComb"] else "D2")
     if fl["laterMulti"] and kind in ("wrongvals", "morejobs"):
-        return "D34"
+        return "D38"
     if fl["partialZipFeeds"]:
         return "D29"
     if fl["combAllPrev"]:
-        return "D33"
+        return "D37"
     if fl["laterMulti"]:
-        return "D34"
+        return "D38"
     return None
 
 
@@ -351,7 +357,28 @@ def _gen_case(rng, p_comb: float) -> dict:
     outs = [nodes[-1]["name"]]
     if n > 2 and rng.random() < 0.4:
         outs.append(rng.choice([nd["name"] for nd in nodes[:-1]]))
-    return {"nodes": nodes, "out": outs, "shape": shape}
+    case = {"nodes": nodes, "out": outs, "shape": shape}
+    if rng.random() < 0.1:
+        # a node whose name is a field name ("x" is a substring of every key "<node>.x"): pydra classifies combiner keys by
+        # substring containment of the node name
+        case = rename(case, rng.choice([nd["name"] for nd in nodes]), rng.choice(F3))
+    return case
+
+
+def rename(case: dict, old: str, new: str) -> dict:
+    """Rename node `old` to `new` everywhere (names, upstream references, dotted combiner keys, outputs)."""
+
+    def key(c):
+        n, f = c.split(".", 1)
+        return f"{new}.{f}" if n == old else c
+
+    nodes = []
+    for nd in case["nodes"]:
+        nd2 = dict(nd, name=new if nd["name"] == old else nd["name"])
+        nd2["in"] = {f: ({"n": new} if s.get("n") == old else s) for f, s in nd["in"].items()}
+        nd2["combine"] = [key(c) for c in nd.get("combine") or []]
+        nodes.append(nd2)
+    return dict(case, nodes=nodes, out=[new if o == old else o for o in case["out"]])
 
 
 # --------------------------------------------------------------------------------------------------------------------
@@ -521,7 +548,7 @@ def run_cases(ctx, cases, label="generated"):
         ctx.count("class:in" if fl["inClass"] else "class:outside")
         ctx.count(f"impl:{kind}")
         if not fl["inClass"]:
-            for k2 in ("shared", "laterMulti", "combAllPrev", "partialZipFeeds"):
+            for k2 in ("shared", "laterMulti", "combAllPrev", "partialZipFeeds", "nameClash"):
                 if fl[k2]:
                     ctx.count(f"outside:{k2}")
         ctx.extra["in_class_cases"] = ctx.extra.get("in_class_cases", 0) + (1 if fl["inClass"] else 0)
@@ -554,9 +581,10 @@ WHAT = {
     "D29": "AttributeError",
     "D30": "TypeError",
     "D31": "wrongvals",
-    "D33": "ValueError",
-    "D34": "wrongvals",
-    "D35": "KeyError",
+    "D37": "ValueError",
+    "D38": "wrongvals",
+    "D36": "KeyError",
+    "D39": "wrongvals",
 }
 
 
@@ -610,7 +638,7 @@ def correspondence(ctx):
     findings = load_corpus("findings.jsonl")
     cases = [dict(r["case"], shape="corpus", corpus_id=r["id"]) for r in findings]
     cases += [dict(r["case"], shape="corpus", corpus_id=r["id"]) for r in load_corpus("regressions.jsonl")]
-    n = ctx.pick(130, 2000) * (2 if changed else 1)
+    n = ctx.pick(110, 2000) * (2 if changed else 1)
     cases += [gen_case(ctx.rng, max_jobs=ctx.pick(32, 90)) for _ in range(n)]
     res = run_cases(ctx, cases)
     by_id = {c.get("corpus_id"): (c, i, spec, model) for c, i, spec, model, _ in res if c.get("corpus_id")}
